@@ -304,7 +304,36 @@ fn gen_for(def: &CheckDef, verif_seed: u64, run_no: u64) -> Result<Scenario, Str
         return execcheck::gen_exec_scenario(def.id, run_seed);
     }
     let p = &def.profiles[(run_no % def.profiles.len() as u64) as usize];
-    gen::gen_scenario(def.id, p, run_seed, def.reencode_tail)
+    let mut sc = gen::gen_scenario(def.id, p, run_seed, def.reencode_tail)?;
+    if def.id == "C25" {
+        // the skip list: none / some / all / leading / trailing / duplicates / imported IDs
+        let mut rng = rng::Rng::new(rng::mix(run_seed, 0x25));
+        let mut m = model::Model::new(&sc.base);
+        for (_, op) in sc.flat_ops() {
+            if m.precond(op) {
+                m.apply(op);
+            }
+        }
+        let n = m.funcs.len() as u32;
+        let locals = m.alive_local_funcs();
+        let skip: Vec<u32> = match rng.below(8) {
+            0 => vec![],
+            1 => locals.clone(),
+            2 => locals.iter().take(rng.below(locals.len() + 1)).copied().collect(),
+            3 => locals.iter().rev().take(rng.below(locals.len() + 1)).copied().collect(),
+            4 => (0..n).filter(|_| rng.chance(1, 2)).collect(),
+            5 => {
+                let mut v: Vec<u32> = (0..n).filter(|_| rng.chance(1, 3)).collect();
+                let d = v.clone();
+                v.extend(d);
+                v
+            }
+            6 => m.alive_import_funcs(),
+            _ => locals.iter().filter(|_| rng.chance(1, 2)).copied().collect(),
+        };
+        sc.walk = Some(exec::WalkPlan { skip, partial: rng.below(40) as u32 });
+    }
+    Ok(sc)
 }
 
 fn check_cmd(id: &str, tier: &str, verif_seed: u64) -> i32 {
